@@ -17,6 +17,7 @@ import types
 from concurrent.futures import Future as _RealFuture
 
 ORDER = {"M": 0, "R": 1, "D": 2, "F": 3, "W": 4, "P": 5}
+STARVE = 30
 
 
 def ent_key(name):
@@ -133,6 +134,16 @@ class Ctl:
                 if not cands:
                     cands = enabled
                 pick = cands[c % len(cands)]
+                # bounded waiting: whatever the schedule says, an entity that has been enabled
+                # and passed over for STARVE consecutive steps goes next (weak fairness)
+                worst = max(enabled, key=lambda e: (getattr(e, "starve", 0), -ent_key(e.name)[0], -ent_key(e.name)[1]))
+                if getattr(worst, "starve", 0) >= STARVE:
+                    pick = worst
+                for e in self.ents.values():
+                    if e in enabled and e is not pick:
+                        e.starve = getattr(e, "starve", 0) + 1
+                    else:
+                        e.starve = 0
                 lab = pick.label() if callable(pick.label) else pick.label
                 self.log.append(([e.name for e in enabled], pick.name, lab))
                 if getattr(pick, "polling", False):
